@@ -11,6 +11,7 @@
 #include "arch.h"
 #include "float_cast.h"
 #include "mathops.h"
+#include "opus_private.h"   /* OPUS_SET_FORCE_MODE, MODE_SILK_ONLY, MODE_CELT_ONLY */
 
 static uint32_t f2u(float f) { uint32_t u; memcpy(&u, &f, 4); return u; }
 static float u2f(uint32_t u) { float f; memcpy(&f, &u, 4); return f; }
@@ -389,6 +390,16 @@ static void run_gainsearch(uint64_t seed, long streams)
       OpusDecoder *e0 = opus_decoder_create(dFs, dch, &err), *eg = opus_decoder_create(dFs, dch, &err);
       int maxfs = dFs / 25 * 3;  /* 120 ms */
       char det[300];
+      /* mode-switching streams: a second encoder forced to the other coding mode; the packet fed to the decoders alternates
+         between the two every 1..3 frames, so the decoder goes through SILK<->CELT transitions without redundancy frames
+         (the recursive opus_decode_frame call for the cross-fade, src/opus_decoder.c:373-377 and 511-515) */
+      OpusEncoder *enc2 = NULL; int dual = (s % 3) == 1, use2 = 0, hold = 0;
+      if (dual) {
+         if (fs48 < 480) { fs48 = 960; fsz = fs48 * (Fs / 1000) / 48; }
+         enc2 = opus_encoder_create(Fs, ch, app, &err);
+         opus_encoder_ctl(enc, OPUS_SET_FORCE_MODE(MODE_SILK_ONLY)); opus_encoder_ctl(enc2, OPUS_SET_FORCE_MODE(MODE_CELT_ONLY));
+         opus_encoder_ctl(enc2, OPUS_SET_BITRATE(24000 + vbelow(&r, 100000)));
+      }
       opus_encoder_ctl(enc, OPUS_SET_BITRATE(6000 + vbelow(&r, 120000)));
       if (vchance(&r, 30)) opus_encoder_ctl(enc, OPUS_SET_FORCE_CHANNELS(1));
       if (vchance(&r, 30)) opus_encoder_ctl(enc, OPUS_SET_INBAND_FEC(1)), opus_encoder_ctl(enc, OPUS_SET_PACKET_LOSS_PERC(20));
@@ -400,6 +411,12 @@ static void run_gainsearch(uint64_t seed, long streams)
          gen_audio(&r, in, fsz, ch, kind, phase, amp);
          len = opus_encode_float(enc, in, fsz, pkt, sizeof pkt);
          if (len < 0) break;
+         if (dual) {
+            unsigned char pkt2[4000]; int len2 = opus_encode_float(enc2, in, fsz, pkt2, sizeof pkt2);
+            if (len2 < 0) break;
+            if (hold-- <= 0) { use2 = !use2; hold = vbelow(&r, 3); }
+            if (use2) { memcpy(pkt, pkt2, len2); len = len2; }
+         }
          if (lose) { lost++; n0 = opus_decode_float(d0, NULL, 0, o0, fs48 * (dFs / 1000) / 48, 0); ng = opus_decode_float(dg, NULL, 0, og, fs48 * (dFs / 1000) / 48, 0);
                      m0 = opus_decode(e0, NULL, 0, s0, fs48 * (dFs / 1000) / 48, 0); mg = opus_decode(eg, NULL, 0, sg, fs48 * (dFs / 1000) / 48, 0); }
          else { fec = f > 2 && vchance(&r, 8);
@@ -408,7 +425,7 @@ static void run_gainsearch(uint64_t seed, long streams)
          opus_decoder_ctl(d0, OPUS_GET_FINAL_RANGE(&r0)); opus_decoder_ctl(dg, OPUS_GET_FINAL_RANGE(&rg));
          opus_decoder_ctl(e0, OPUS_GET_FINAL_RANGE(&q0)); opus_decoder_ctl(eg, OPUS_GET_FINAL_RANGE(&qg));
          frames_total++;
-         snprintf(det, sizeof det, "c19_softclip gainsearch %llu: stream %ld Fs=%d ch=%d dFs=%d dch=%d app=%d g=%d frame=%d lost=%d fec=%d", (unsigned long long)seed, s, Fs, ch, dFs, dch, app, g, f, lose, fec);
+         snprintf(det, sizeof det, "c19_softclip gainsearch %llu: stream %ld Fs=%d ch=%d dFs=%d dch=%d app=%d g=%d mode-switching=%d frame=%d (packet mode %s) lost=%d fec=%d", (unsigned long long)seed, s, Fs, ch, dFs, dch, app, g, dual, f, dual ? (use2 ? "CELT" : "SILK") : "auto", lose, fec);
          if (n0 != ng || m0 != mg || n0 != m0) { if (wit++ < 8) printf("W gain-count | %s | equal sample counts | float(0)=%d float(g)=%d int16(0)=%d int16(g)=%d | the decoder gain must not change the sample count\n", det, n0, ng, m0, mg); continue; }
          if (r0 != rg || q0 != qg || r0 != q0) { if (wit++ < 8) printf("W gain-range | %s | equal final ranges | float(0)=%08x float(g)=%08x int16(0)=%08x int16(g)=%08x | the decoder gain must not change the final range\n", det, r0, rg, q0, qg); }
          if (n0 <= 0) continue;
@@ -427,11 +444,12 @@ static void run_gainsearch(uint64_t seed, long streams)
             opus_int16 want = my_f2i16(tmp[i]);
             if (want == 32767 || want == -32768 || fabsf(og[i]) > 1.f) sat_hits++;
             if (want != sg[i]) { if (wit++ < 8) printf("W gain-int16 | %s | %d (%s x32768, rounded to nearest even, saturated) | sample %d: float(g)=%.9g int16(g)=%d | with a decoder gain the integer output must saturate, not wrap\n", det, want, (lose || fec) ? "float output" : "float output through the soft clipper,", i, og[i], sg[i]); break; }
-            if ((og[i] > 0.01f && sg[i] < 0) || (og[i] < -0.01f && sg[i] > 0) || (og[i] >= 2.f && sg[i] != 32767) || (og[i] <= -2.f && sg[i] != -32768)) {
-               if (wit++ < 8) printf("W gain-wrap | %s | int16 of the same sign, at the limit for |float| >= 2 | sample %d: float(g)=%.9g int16(g)=%d | integer output must saturate rather than wrap\n", det, i, og[i], sg[i]); break; }
+            /* (a sample >= 2 need not come out at exactly 32767: the continuation of the previous frame's curve lowers it first) */
+            if ((og[i] > 0.01f && sg[i] < 0) || (og[i] < -0.01f && sg[i] > 0)) {
+               if (wit++ < 8) printf("W gain-wrap | %s | int16 of the same sign as the float output | sample %d: float(g)=%.9g int16(g)=%d | integer output must saturate rather than wrap\n", det, i, og[i], sg[i]); break; }
          }
       }
-      opus_encoder_destroy(enc); opus_decoder_destroy(d0); opus_decoder_destroy(dg); opus_decoder_destroy(e0); opus_decoder_destroy(eg);
+      opus_encoder_destroy(enc); if (enc2) opus_encoder_destroy(enc2); opus_decoder_destroy(d0); opus_decoder_destroy(dg); opus_decoder_destroy(e0); opus_decoder_destroy(eg);
    }
    printf("STAT cases=%ld streams=%ld lost=%ld samples=%ld saturating_samples=%ld gain_factor_max_rel_err=%.3g witnesses=%ld\n", frames_total, streams, lost, samples, sat_hits, max_rel, wit);
 }
